@@ -725,9 +725,9 @@ class DFA:
             return True
         return False
 
-    def dfs(self):
+    def dfs(self, also_from=()):
         """
-        Construct a dfs-order traversal of the DFA
+        Construct a dfs-order traversal of the DFA (from the starting state, then from the states in also_from)
         """
 
         visited = set()
@@ -758,6 +758,8 @@ class DFA:
                     yield from aux(t.target)
 
         yield from aux(self.starting_state)
+        for state in also_from:
+            yield from aux(state)
 
     def error_handling_transitions(self, include_states=False):
         """
@@ -5207,11 +5209,13 @@ class DfaCompileCtx:
     def _optimize_remove_inaccessible(self):
         if not ProgramData.do(ProgramFlag.REMOVE_INACCESIBLE_STATES):
             return 0
-        accessible = set(self.dfa.dfs())
-        # targets of the start actions (e.g. the out of space handler of an initial append) are referenced from _start
+        # targets of the start actions (e.g. the out of space handler of an initial append) are referenced from _start: they and
+        # everything reachable from them are accessible too
+        start_targets = []
         for action in self.start_actions:
             for subaction in action.all_subactions():
-                accessible.update(subaction.get_target_override_targets())
+                start_targets.extend(subaction.get_target_override_targets())
+        accessible = set(self.dfa.dfs(also_from=start_targets))
         mod = 0
         for i in self.dfa.states.copy():
             if i not in accessible:
